@@ -4,14 +4,17 @@ package harness
 
 import (
 	"bytes"
+	"context"
 	"fmt"
 	"io"
 	"os"
+	"os/exec"
 	"path/filepath"
 	"regexp"
 	"strconv"
 	"strings"
 	"sync"
+	"syscall"
 	"testing"
 	"time"
 
@@ -266,6 +269,14 @@ func c07Check(c c07Case) *Violation {
 	what := fmt.Sprintf("%s(%s %q)", c.Target, c.How, clipStr(string(in), 80))
 	switch c.Target {
 	case "scan":
+		// a record that declares far more bases than the input could hold is first read in a child process with a
+		// limited address space: a reader that sizes its memory by the declared number instead of by the input dies
+		// there (unrecoverably), not here
+		if huge := c07HugeDeclared(in); huge > 0 {
+			if v := c07ScanInChild(what, in, c.Deliv, huge); v != nil {
+				return v
+			}
+		}
 		var s scanned
 		pi, hung := withWatchdog(len(in), func() { s = scanAll(in, c.Deliv) })
 		if hung {
@@ -760,6 +771,104 @@ func c07Gen(t *rapid.T) c07Case {
 	}
 }
 
+var locusAnyRe = regexp.MustCompile(`(?m)^LOCUS[ \t]+\S+[ \t]+([0-9]{8,19}) (?:bp|aa)`)
+
+// c07HugeDeclared returns the largest LOCUS length declared in the input when it is out of all proportion to the input
+// (more than 64 Mi and more than 64 times the input's size), else 0.
+func c07HugeDeclared(in []byte) int {
+	worst := 0
+	for _, m := range locusAnyRe.FindAllSubmatch(in, 8) {
+		n, err := strconv.Atoi(string(m[1]))
+		if err != nil || n <= 1<<26 || n/64 <= len(in) {
+			continue
+		}
+		if n > worst {
+			worst = n
+		}
+	}
+	return worst
+}
+
+const c07ChildLimit = 3 << 30
+
+// TestC07Child is the helper process of c07ScanInChild: it limits its own address space and scans the input.
+func TestC07Child(t *testing.T) {
+	path := os.Getenv("VERIF_C07_CHILD_INPUT")
+	if path == "" {
+		t.Skip("helper process only")
+	}
+	in, err := os.ReadFile(path)
+	if err != nil {
+		fmt.Println("C07CHILD unreadable")
+		return
+	}
+	deliv, _ := strconv.Atoi(os.Getenv("VERIF_C07_CHILD_DELIV"))
+	if err := syscall.Setrlimit(syscall.RLIMIT_AS, &syscall.Rlimit{Cur: c07ChildLimit, Max: c07ChildLimit}); err != nil {
+		fmt.Println("C07CHILD setrlimit-failed")
+		return
+	}
+	fmt.Println("C07CHILD started")
+	pi := guard(func() {
+		s := scanAll(in, deliv)
+		for _, r := range s.recs {
+			_ = gts.Len(r)
+			_ = r.Bytes()
+		}
+	})
+	if pi != nil {
+		fmt.Printf("C07CHILD panic %s (at %s)\n", strings.ReplaceAll(pi.Value, "\n", " "), pi.Site)
+		return
+	}
+	fmt.Println("C07CHILD done")
+}
+
+// c07ScanInChild scans the input in a child process whose address space is limited to 3 GiB. The child must come back
+// (with values, an error or a recovered panic): if it dies, the reader needed memory that has nothing to do with the
+// size of its input.
+func c07ScanInChild(what string, in []byte, deliv, declared int) *Violation {
+	dir := filepath.Join(outDir(), "c07-child")
+	os.MkdirAll(dir, 0o755)
+	f, err := os.CreateTemp(dir, "in")
+	if err != nil {
+		panic(err)
+	}
+	f.Write(in)
+	f.Close()
+	defer os.Remove(f.Name())
+	ctx, cancel := context.WithTimeout(context.Background(), 120*time.Second)
+	defer cancel()
+	cmd := exec.CommandContext(ctx, os.Args[0], "-test.run", "^TestC07Child$")
+	cmd.Env = append(os.Environ(), "VERIF_C07_CHILD_INPUT="+f.Name(), fmt.Sprint("VERIF_C07_CHILD_DELIV=", deliv))
+	out, _ := cmd.CombinedOutput()
+	started, status := false, ""
+	for _, ln := range strings.Split(string(out), "\n") {
+		if strings.HasPrefix(ln, "C07CHILD ") {
+			st := strings.TrimPrefix(ln, "C07CHILD ")
+			if st == "started" {
+				started = true
+			} else {
+				status = st
+			}
+		}
+	}
+	switch {
+	case ctx.Err() != nil:
+		return viol("hang", "%s: reading %d bytes that declare %d bases did not finish within 120 s (child process)", what, len(in), declared)
+	case !started:
+		skipCase("declared-length-child-unavailable")
+		return nil
+	case status == "done":
+		return nil
+	case strings.HasPrefix(status, "panic "):
+		return viol("panic", "%s: reading %d bytes that declare %d bases panicked: %s", what, len(in), declared, clipStr(status, 300))
+	}
+	tail := string(out)
+	if i := strings.Index(tail, "fatal error"); i >= 0 {
+		tail = tail[i:]
+	}
+	return viol("resource", "%s: the reader died on %d bytes that declare %d bases under an address-space limit of 3 GiB (memory is sized by the declared length, not by the input): %s", what, len(in), declared, clipStr(tail, 200))
+}
+
 func TestC07(t *testing.T) {
 	st := newStats("C07")
 	defer st.flush()
@@ -833,6 +942,19 @@ func TestC07(t *testing.T) {
 		}
 	}
 	ef.done(thorough())
+	// declared lengths out of all proportion to the input (each is read in a child process first, see c07ScanInChild)
+	eh := enumPart(t, c07Prop, st, "huge-declared-lengths")
+	for _, n := range []int{1<<26 + 1, 1 << 28, 1 << 30, 3 << 30, 10000000000, 1 << 36, 1 << 40, 230000000000000, 1000000000000000, 4000000000000000000, 9223372036854775806} {
+		for _, body := range []string{"", "ORIGIN      \n        1 acgtacgtac gtacgtacgt\n//\n", "ORIGIN      \n//\n"} {
+			for _, cr := range []bool{false, true} {
+				rec := fmt.Sprintf("LOCUS       HUGE        %19d bp    DNA     linear   SYN 01-JAN-2020\nDEFINITION  d.\nACCESSION   A\nVERSION     A.1\nKEYWORDS    .\nSOURCE      s\n  ORGANISM  o\n            Bacteria.\nFEATURES             Location/Qualifiers\n     misc_feature    1\n%s", n, body)
+				if !eh.try(c07Case{Target: "scan", Input: []byte(rec), CRLF: cr, How: "declared-length", Trunc: -1}) {
+					return
+				}
+			}
+		}
+	}
+	eh.done(false)
 	// size ladder: cost stays under the ceiling for valid and for garbage input up to 1 MiB
 	e2 := enumPart(t, c07Prop, st, "size-ladder")
 	base := corpusFile("NC_001422.gb")
